@@ -45,11 +45,21 @@ class ThreadsWorld(object):
     return self.eng
 
   def start_scheduler(self):
+    if self.cfg.get("app_loop"):
+      # the application runs the loop on a thread of its own
+      # (Scheduler(startInThread=False) + Thread(target=scheduler.run)):
+      # the scheduler does not know which thread that is
+      t = self.ns.Thread(target=self.sched.run)
+      t.daemon = True
+      t.start()
+      self.sched_facade = t
+      self.sim.probes["loop_on_application_thread"] += 1
+      return
     self.sched.runThreaded()
     self.sched_facade = self.sched._thread
 
   def on_sched_thread(self):
-    return self.ns.current_thread() is self.sched._thread
+    return self.ns.current_thread() is self.sched_facade
 
   def stop_scheduler(self):
     """ask the scheduler loop (and hub thread) to end"""
